@@ -208,9 +208,10 @@ def run(ctx, R, tier):
              isinstance(c.args[0], ast.Constant) and c.args[0].value == "close_stream"]
 
     def connected(atom, pol):
-        if pol is not True:
-            return False
-        return any(isinstance(n, ast.Compare) and unparse(n.left) == "self.proxy._pyroConnection" and isinstance(n.ops[0], ast.IsNot) for n in ast.walk(atom))
+        if isinstance(atom, ast.Compare) and len(atom.ops) == 1 and unparse(atom.left) == "self.proxy._pyroConnection" and \
+                isinstance(atom.comparators[0], ast.Constant) and atom.comparators[0].value is None:
+            return (isinstance(atom.ops[0], ast.IsNot) and pol is True) or (isinstance(atom.ops[0], ast.Is) and pol is False)
+        return False
     ok = bool(sends) and all(ccfg.guarded(n, lambda e: edge_has_fact(e, connected)) for c in sends for n in ctx.node_of(cl, c))
     R.check(ok, "C10-R6", "close|only-while-connected", "close_stream is sent only while the proxy is connected", cl.loc(),
             "closing a stream of a disconnected proxy would reconnect / raise")
